@@ -18,6 +18,8 @@
                          `decide` of a caller that finds a dead computing loop takes the key over;
      no_deadlock         while some call on a live loop is unfinished, some step other than the
                          environment's End / loop life-cycle events is enabled;
+     retry_measure       no spinning: retries <= ended invocations + proxy results + closed loops +
+                         time-outs, and every time-out costs 61440 ticks;
      ok_C05_sound        every trace the model accepts satisfies the trace monitor that judges the
                          traces of the real code (no hang, prompt answers, rescue within 60 s).
 
@@ -25,14 +27,10 @@
      - the inference "a fair scheduler eventually takes a step that stays enabled", which turns
        "enabled" (owner_can_finish, prompt, rescue_within_60, no_deadlock) into "eventually taken",
        together with the assumption of the property that every invocation of the wrapped function
-       finishes or is cancelled (IEnd is an environment event);
-     - the converse of ok_C05_sound (ok_C05 tr = true implies the readable statement about tr);
-     - `retry_measure` of DESIGN 5.5 (no spinning: every further round of the while-loop is paid for
-       by an invocation ending, a loop changing state or 60 virtual seconds).  The model has no ghost
-       retry counter; spinning of the real code is caught on traces by the step bound of the harness. *)
+       finishes or is cancelled (IEnd is an environment event); *)
 From Coq Require Import List Arith NArith Bool.
 Import ListNotations.
-Require Import Aiuti.Cache Aiuti.CacheLemmas Aiuti.CacheInv Aiuti.CacheLive Aiuti.CacheMon Aiuti.CacheMon5.
+Require Import Aiuti.Cache Aiuti.CacheLemmas Aiuti.CacheInv Aiuti.CacheLive Aiuti.CacheMon Aiuti.CacheMon5 Aiuti.CacheMon5Spec Aiuti.CacheRetry.
 
 (* own_ev p = Some e: the caller at pc p created event e in its Decide and has not yet run the
    `finally` block that sets it (pcs PUnlock (DComp e), PInvoke e, PComp _ e, PPublish _ e, PFinLock e _). *)
@@ -172,6 +170,22 @@ Theorem no_deadlock :
 Proof. exact no_deadlock_run. Qed.
 Print Assumptions no_deadlock.
 
+(* NO SPINNING (retry_measure).  A *retry* of caller c is a further round of its `while True` loop:
+   an accepted `Get _ c` at pc PProbe (back from run_coroutine_threadsafe on a closed loop), PWait or
+   PWaitX (woken, proxy answered, or timed out); the counters are computed along the run from the
+   pre-state of each accepted event (CacheRetry.count_run; no change to the model).  Along EVERY
+   accepted event list the number of retries of c is at most
+     (invocations ended so far) + (proxy results delivered to c) + (loops closed) + (c's time-outs)
+   and every time-out of c is paid for by 61440 ticks of virtual time:  time-outs * 61440 <= now.
+   So a caller cannot go round the loop without an invocation ending, a proxy answering, a loop
+   being closed, or 60 virtual seconds passing. *)
+Theorem retry_measure :
+  forall n tbl tr s c, run (init n tbl) tr = Some s ->
+    retries c (init n tbl) tr <= n_iend tr + n_proxy c tr + n_close tr + timeouts c (init n tbl) tr
+    /\ (N.of_nat (timeouts c (init n tbl) tr) * SAFETY <= now s)%N.
+Proof. exact CacheRetry.retry_measure. Qed.
+Print Assumptions retry_measure.
+
 (* MONITOR SOUNDNESS.  The trace monitor ok_C05 that the check evaluates on every trace observed
    from the real code — the run ends with End 0 (no deadlock, no step bound = spinning, no hang);
    when a loop's shutdown run is over every started call of that loop has been answered; and
@@ -187,6 +201,65 @@ Theorem ok_C05_sound :
   forall nloops tbl tr, accepts nloops tbl tr = true -> ok_C05 nloops tbl tr = true.
 Proof. exact ok_C05_sound_l. Qed.
 Print Assumptions ok_C05_sound.
+
+(* CONVERSE direction: what "the monitor accepted a trace" means for that trace ALONE (no model).
+   The check evaluates ok_C05 on the trace observed from the REAL code, so every accepted
+   implementation trace satisfies the following.  Trace-only vocabulary (CacheMon5Spec.v):
+     clock pre            tick of the last Adv in pre (0 if none);
+     pending tbl n pre c  c was started in pre (a Get of c), has no Done and no Cancel in pre, and its
+                          loop (a valid loop index) has no life-cycle event in pre (never stopped);
+     in_flight tbl pre k  some IStart i c' of key k in pre has no IEnd after it and the loop of c' has
+                          no life-cycle event in pre (an invocation of k is in progress on a running loop);
+     succeeded tbl pre k  some invocation of key k (key of its latest IStart) has its IEnd i 0 in pre;
+     first_tick pre c t1  t1 is the clock just before c's first Get;
+     host_died tbl pre k d   some loop that hosted an invocation of k stopped running or finished its
+                          shutdown run, for the last time when the clock showed d.
+
+   The run ended with "every thread finished": no deadlock, no step bound (spinning), no hang. *)
+Theorem ok_C05_implies_ends_with_End0 :
+  forall n tbl tr, ok_C05 n tbl tr = true ->
+  (exists pre, tr = pre ++ [End 0] /\ (forall r, ~ In (End r) pre)) /\ (forall b, ~ In (Bad b) tr).
+Proof. exact (fun n tbl tr H => conj (ok_C05_ends_with_End0 n tbl tr H) (ok_C05_no_bad n tbl tr H)). Qed.
+Print Assumptions ok_C05_implies_ends_with_End0.
+
+(* When a loop's shutdown run is over, every call of that loop that had started has been answered. *)
+Theorem ok_C05_implies_shutdown_answers :
+  forall n tbl tr, ok_C05 n tbl tr = true ->
+  forall pre t post, tr = pre ++ LoopEv t 2 :: post ->
+  forall t0 c, In (Get t0 c) pre -> tbl_loop tbl c = t -> exists k p tk, In (Done c k p tk) pre.
+Proof. exact ok_C05_shutdown_answers. Qed.
+Print Assumptions ok_C05_implies_shutdown_answers.
+
+(* PROMPT.  While no loop that hosted the key has stopped, the clock can only move past a pending
+   call if no invocation of its key has succeeded yet and one is genuinely in progress on a running
+   loop.  Hence a waiter is answered in the very tick in which the computation ends (the next Adv
+   would otherwise find it pending with the key succeeded / nothing in flight), a failed or cancelled
+   computation is followed by a recomputation in the same tick, and nobody waits for nothing — never
+   "after the 60-second safety timeout". *)
+Theorem ok_C05_implies_prompt :
+  forall n tbl tr, ok_C05 n tbl tr = true ->
+  forall pre tick post, tr = pre ++ Adv tick :: post ->
+  forall c, pending tbl n pre c ->
+    (forall i c' t', In (IStart i c' t') pre -> tbl_key tbl c' = tbl_key tbl c ->
+       ~ In (LoopEv (tbl_loop tbl c') 0) pre /\ ~ In (LoopEv (tbl_loop tbl c') 2) pre) ->
+    ~ succeeded tbl pre (tbl_key tbl c) /\ in_flight tbl pre (tbl_key tbl c).
+Proof. exact ok_C05_prompt. Qed.
+Print Assumptions ok_C05_implies_prompt.
+
+(* RESCUE.  A pending call on a running loop with nothing of its key in progress on a running loop
+   (or whose key has already succeeded) is only possible behind a dead computing loop, and then the
+   clock is at most 61440 ticks (60 s) past the later of the call's own first tick and the last
+   death of a loop that hosted its key: callers recover within the safety window instead of
+   waiting or spinning for ever. *)
+Theorem ok_C05_implies_rescue :
+  forall n tbl tr, ok_C05 n tbl tr = true ->
+  forall pre tick post, tr = pre ++ Adv tick :: post ->
+  forall c, pending tbl n pre c ->
+    (~ in_flight tbl pre (tbl_key tbl c) \/ succeeded tbl pre (tbl_key tbl c)) ->
+    exists t1 d, first_tick pre c t1 /\ host_died tbl pre (tbl_key tbl c) d
+                 /\ (tick <= N.max t1 d + 61440)%N.
+Proof. exact ok_C05_rescue. Qed.
+Print Assumptions ok_C05_implies_rescue.
 
 (* the monitor is not trivially true: it rejects a run that ends in a deadlock, a waiter that is
    answered only at the 60 s timeout although the computation on a running loop ended at tick 5
